@@ -27,14 +27,22 @@ def bail(node, why):
 
 
 _cache = {}
+NORMALIZE_LOG = []
 
 
 def load(rel):
+    """parse a module of the package; new helpers / new named constants (relative to known_defs.json) are inlined first,
+    see normalize.py (VERIF_NO_NORMALIZE=1 switches the front-end off)"""
     p = os.path.join(SRC, rel)
     if p not in _cache:
         with open(p) as f:
             src = f.read()
-        _cache[p] = (ast.parse(src), src)
+        mod = ast.parse(src)
+        if not os.environ.get("VERIF_NO_NORMALIZE"):
+            from translate import normalize
+            mod, log = normalize.normalize(mod, rel, SRC)
+            NORMALIZE_LOG.extend("%s: %s" % (rel, l) for l in log)
+        _cache[p] = (mod, src)
     return _cache[p][0]
 
 
